@@ -48,3 +48,6 @@ package compress
 //@   ensures err == nil ==> unle64(w.Data[0], w.Data[1], w.Data[2], w.Data[3], w.Data[4], w.Data[5], w.Data[6], w.Data[7]) == ch128lo(arrayof(w.Data), offset(w.Data) + 16, len(w.Data) - 16) {frame-cksum-lo}
 //@   ensures err == nil ==> unle64(w.Data[8], w.Data[9], w.Data[10], w.Data[11], w.Data[12], w.Data[13], w.Data[14], w.Data[15]) == ch128hi(arrayof(w.Data), offset(w.Data) + 16, len(w.Data) - 16) {frame-cksum-hi}
 //@   ensures err == nil && w.method == None ==> len(w.Data) == headerSize + len(buf) && forall k in 0..len(buf) :: w.Data[headerSize + k] == buf[k] {frame-none-payload}
+
+//@ contract NewReader(rd) (r) props(C05)
+//@   ensures r != nil && len(r.header) == headerSize && r.pos == 0 && len(r.data) == 0 && r.reader == rd
